@@ -27,7 +27,7 @@ TRUSTED_BASE = [
     "Lean 4.33.0 kernel; Mathlib v4.33.0 as compiled on this image",
     "axioms allowed in property theorems: propext, Classical.choice, Quot.sound (audited with #print axioms on every run)",
     "hand-written executable model lean/Ds/*.lean: tied to /repo only by this run's correspondence (differential) check — validated, not verified",
-    "kernel functions (compute_all_importances, compute_all_importances_cy, get_test_batch_size): lean/Gen/Kernel.lean is REGENERATED from /repo's source by harness/translate.py on every run and proved equal to the model (lean/Tie); trusted there: the translator and the meaning of the numpy primitives in lean/Ds/Np.lean (both exercised against the implementation by the C13/C01 checks), argsort as a parameter",
+    "kernel functions (compute_all_importances, compute_all_importances_cy, get_test_batch_size) and the control skeleton of _shapley_bruteforce: lean/Gen/Kernel.lean and lean/GenB/Brute.lean are REGENERATED from /repo's source by harness/translate.py / translate_skel.py on every run and proved equal to the model (lean/Tie, lean/TieB); trusted there: the translators and the meaning of the numpy/Python primitives in lean/Ds/Np.lean (exercised against the implementation by the C13 and C03 checks); argsort, provenance.query and the body of the try block are parameters",
     "NumPy/scikit-learn/pandas/CPython/Cython/gcc behaviour: modelled as parameters (argsort order, LabelEncoder = sorted distinct, accuracy_score, roc_auc_score on hard predictions, comb, connected_components, RandomState permutations, time.time readings)",
     "IEEE-754 rounding is executed (Float instance) and measured, never reasoned about",
     "the harness: generators, canonicalisation, tolerance 1e-9*(1+scale), exception-class mapping, Fraction by-definition evaluators",
@@ -80,6 +80,7 @@ class Ctx:
         self.lean_problem = None
         self.driver = None
         self.gendriver = None
+        self.genbdriver = None
         self.theorems = []
         self.axioms = {}
         self.extra = {}
@@ -93,8 +94,11 @@ class Ctx:
             self.theorems = leanio.obligations_for(self.prop) + leanio.tie_obligations_for(self.prop)
             if os.path.exists(leanio.DRIVER):
                 self.driver = leanio.Driver()
-            if self.prop in leanio.TIE_PROPS and os.environ.get("VERIF_TIE_OK") == "1" and os.path.exists(leanio.GENDRIVER):
+            ties = leanio.ties_for(self.prop)
+            if "kernel" in ties and os.environ.get("VERIF_TIE_OK_kernel") == "1" and os.path.exists(leanio.GENDRIVER):
                 self.gendriver = leanio.GenDriver()
+            if "brute" in ties and os.environ.get("VERIF_TIE_OK_brute") == "1" and os.path.exists(leanio.GENBDRIVER):
+                self.genbdriver = leanio.GenBDriver()
             self.lean_ok = self.driver is not None
             return
         ok, log, secs = leanio.build()
@@ -121,14 +125,14 @@ class Ctx:
             self.extra["leanchecker"] = dict(modules=leanio.modules_for(self.prop), ok=lc_ok, output=lc_msg)
             if lc_ok is False:
                 problems.append("leanchecker rejected the compiled property modules: " + lc_msg)
-        if self.prop in leanio.TIE_PROPS:
-            # the translated source: regenerate lean/Gen from the repository, re-prove it equal to the model (lean/Tie), audit
-            tie = leanio.tie_build()
-            tie_thms = leanio.tie_obligations_for(self.prop)
+        for tname in leanio.ties_for(self.prop):
+            # the translated source: regenerate the Lean text from the repository, re-prove it equal to the model, audit
+            tie = leanio.tie_build(tname)
+            tie_thms = leanio.tie_obligations_for(self.prop, tname)
             self.theorems = self.theorems + [t for t in tie_thms if t not in self.theorems]
-            self.extra["translator"] = dict(report=tie["report"], build_s=tie["secs"], ok=tie["ok"])
+            self.extra.setdefault("translator", {})[tname] = dict(source=leanio.TIES[tname]["what"], report=tie["report"], build_s=tie["secs"], ok=tie["ok"])
             for pr in tie["problems"]:
-                problems.append("tie: " + pr)
+                problems.append("tie %s: " % tname + pr)
             for t in tie_thms:
                 if t in tie["axioms"]:
                     self.axioms[t] = tie["axioms"][t]
@@ -136,9 +140,11 @@ class Ctx:
                         problems.append("theorem %s depends on %s" % (t, tie["axioms"][t]))
                 elif tie["ok"]:
                     problems.append("theorem %s missing from the tie axiom audit" % t)
-            os.environ["VERIF_TIE_OK"] = "1" if tie["ok"] else "0"
-            if tie["ok"] and os.path.exists(leanio.GENDRIVER):
+            os.environ["VERIF_TIE_OK_" + tname] = "1" if tie["ok"] else "0"
+            if tie["ok"] and tname == "kernel" and os.path.exists(leanio.GENDRIVER):
                 self.gendriver = leanio.GenDriver()
+            if tie["ok"] and tname == "brute" and os.path.exists(leanio.GENBDRIVER):
+                self.genbdriver = leanio.GenBDriver()
         if problems:
             self.lean_problem = problems
         if ok and os.path.exists(leanio.DRIVER):
@@ -150,6 +156,12 @@ class Ctx:
         if self.gendriver is None:
             return None
         return self.gendriver.ask(jsonable(req))
+
+    def genb(self, req):
+        """run the TRANSLATED skeleton of _shapley_bruteforce (lean/GenB); None when it could not be translated / proved"""
+        if self.genbdriver is None:
+            return None
+        return self.genbdriver.ask(jsonable(req))
 
     def model(self, req):
         """ask the Lean model; None when the model cannot be built."""
@@ -269,6 +281,8 @@ class Ctx:
             self.driver.close()
         if self.gendriver:
             self.gendriver.close()
+        if self.genbdriver:
+            self.genbdriver.close()
         shutil.rmtree(self.work, ignore_errors=True)
 
 
